@@ -21,7 +21,7 @@ from copsim.seams import RngRecorder
 PROPERTY = 'C01'
 LEVEL = 'exploration'
 TIERS = {
-    'quick': {'runs': 1000, 'wall': 75, 'batch': 6},
+    'quick': {'runs': 1500, 'wall': 150, 'batch': 6},
     'thorough': {'runs': 30000, 'wall': 840, 'batch': 6},
 }
 RULE = ('Each run = a simulator-generated training table (2-6 columns, Gaussian copula with '
